@@ -748,6 +748,8 @@ def build_units(ctx: Ctx):
 
 
 def run(ctx: Ctx):
+    from vf.prove import prove
+    prove(ctx, ["specs.lp_milp"], "C04")  # deductive part (specs/lp_milp.py)
     from vf.pool import pmap
     use_repo()
     units = build_units(ctx)
